@@ -1,10 +1,13 @@
 (* Properties/C20.v — C20: concurrent readers see a complete best block; finalized never goes backwards;
    read-only operations never write. The importer is a list of steps (atomic store writes, publication of the in-memory
-   best / finalized pointers); reader steps leave the state unchanged (queries_are_pure), so every interleaving of readers
-   with the importer is a prefix of the importer's steps followed by an observation. *)
+   best / finalized pointers).  Crash/ProofsInterleave.v gives the interleaving semantics: a trace of importer events and
+   reader events (pointers loaded, operation, answer); "every interleaving is a prefix of the importer's steps" is the lemma
+   interleaving_is_prefix, and the completeness clause is stated over every trace (every_trace_reader_sees_complete),
+   including a reader that loads the pointer first and reads the data later.  [queries_are_pure] is DEFINITIONAL in this
+   model (the model of a read-only operation has no write to issue); the byte-for-byte clause is carried by the harness. *)
 From Coq Require Import List NArith Bool.
 From Verif Require Import Crash.Model Crash.ProofsStore Crash.ProofsInv Crash.ProofsImport Crash.ProofsCrash
-  Crash.ProofsReaders Crash.ProofsEqv Crash.ProofsShape Crash.ProofsResumeAll Crash.ProofsFinalized Crash.Examples Crash.ProofsResume.
+  Crash.ProofsReaders Crash.ProofsInterleave Crash.ExamplesInterleave Crash.ProofsEqv Crash.ProofsShape Crash.ProofsResumeAll Crash.ProofsFinalized Crash.Examples Crash.ProofsResume.
 Import ListNotations.
 Open Scope N_scope.
 
@@ -22,10 +25,55 @@ Proof. exact (ProofsReaders.visible_implies_complete c s0 hist k). Qed.
 Theorem import_steps_are_good c s b : wf_cfg c -> Inv c s -> wf_blk s b -> good_steps c s (import_steps c s b).
 Proof. exact (import_good_steps c s b). Qed.
 
-(* the model of every read-only operation issues no store write and leaves the system state unchanged *)
+(* the model of every read-only operation issues no store write and leaves the system state unchanged — definitional
+   (query_steps returns no step); used by interleaving_is_prefix; not a statement about the real handlers *)
 Theorem queries_are_pure c y q :
   writes_of_steps (fst (query_steps c y q)) = [] /\ do_steps y (fst (query_steps c y q)) = y.
 Proof. exact (ProofsReaders.queries_are_pure c y q). Qed.
+
+(* ---- interleavings.  [exec c y todo tr y' todo']: from system state y with the importer's remaining steps todo, the trace
+   tr (importer events in order, reader events anywhere) leads to y' with todo' remaining. *)
+Theorem interleaving_is_prefix c y todo tr y' todo' : exec c y todo tr y' todo' ->
+  exists k, y' = do_steps y (firstn k todo) /\ todo' = skipn k todo.
+Proof. exact (ProofsInterleave.interleaving_is_prefix c y todo tr y' todo'). Qed.
+
+Theorem prefix_is_interleaving c y todo k : exec c y todo (map EImp (firstn k todo)) (do_steps y (firstn k todo)) (skipn k todo).
+Proof. exact (ProofsInterleave.prefix_is_interleaving c y todo k). Qed.
+
+(* for every history and EVERY trace: the block any reader observed as best (resp. finalized) at any point of the trace is
+   complete in the store at the END of the trace — whether the trace stops right at the observation (atomic observe + read)
+   or goes on with further importer writes and reader events (the reader resolves the block's data later) *)
+Theorem every_trace_reader_sees_complete c s0 hist b0 f0 tr1 q b f a tr2 y' todo' :
+  wf_cfg c -> Inv c s0 -> wf_hist c s0 hist -> stored s0 b0 = true -> stored s0 f0 = true ->
+  exec c (mkSys s0 b0 f0) (steps_of c s0 hist) (tr1 ++ ERead q b f a :: tr2) y' todo' ->
+  readable (y_store y') b = true /\ readable (y_store y') f = true.
+Proof. exact (ProofsInterleave.every_trace_reader_sees_complete c s0 hist b0 f0 tr1 q b f a tr2 y' todo'). Qed.
+
+(* the same on prefixes: a pointer observed after k1 importer steps names a block complete after any k2 >= k1 steps *)
+Theorem observed_block_stays_complete c s0 hist k1 k2 :
+  wf_cfg c -> Inv c s0 -> wf_hist c s0 hist -> (k1 <= k2)%nat ->
+  forall b0 f0, stored s0 b0 = true -> stored s0 f0 = true ->
+  let y1 := do_steps (mkSys s0 b0 f0) (firstn k1 (steps_of c s0 hist)) in
+  let y2 := do_steps (mkSys s0 b0 f0) (firstn k2 (steps_of c s0 hist)) in
+  readable (y_store y2) (y_best y1) = true /\ readable (y_store y2) (y_fin y1) = true.
+Proof. exact (ProofsInterleave.observed_block_stays_complete c s0 hist k1 k2). Qed.
+
+(* the state a trace ends in is the state of the same trace without its reader events *)
+Theorem readers_do_not_change_the_state c y todo tr y' todo' : exec c y todo tr y' todo' ->
+  exec c y todo (filter (fun e => match e with EImp _ => true | ERead _ _ _ _ => false end) tr) y' todo'.
+Proof. exact (ProofsInterleave.readers_do_not_change_the_state c y todo tr y' todo'). Qed.
+
+(* non-vacuity: a trace of the example history with a reader between the block bulk of block 1 and its publication (it still
+   observes genesis as best), one right after the publication (block 1) and ten more importer steps *)
+Example a_trace_with_readers :
+  let l := steps_of ex_cfg ex_s0 ex_hist in
+  let y0 := mkSys ex_s0 (bid 0 7) (bid 0 7) in
+  exists y' todo',
+    exec ex_cfg y0 l (map EImp (firstn 3 l) ++ ERead QBest (bid 0 7) (bid 0 7) (ANum (bid 0 7)) ::
+                      map EImp (firstn 1 (skipn 3 l)) ++ ERead (QBlock (bid 1 1)) (bid 1 1) (bid 0 7) (ABool true) ::
+                      map EImp (firstn 10 (skipn 4 l))) y' todo' /\
+    nth_error l 3 = Some (SPubBest (bid 1 1)) /\ y_best y' = bid 3 3.
+Proof. exact ex_trace. Qed.
 
 (* successive finalized observations are ancestor-ordered: for every history and any two points k1 <= k2 of any interleaving,
    the finalized block a reader observes at the later point is the earlier one or a descendant of it (resolved in the store
@@ -56,6 +104,12 @@ Proof. exact (conj ex_wf_cfg (conj ex_inv0 (conj ex_wf_hist eq_refl))). Qed.
 Print Assumptions visible_implies_complete.
 Print Assumptions import_steps_are_good.
 Print Assumptions queries_are_pure.
+Print Assumptions interleaving_is_prefix.
+Print Assumptions prefix_is_interleaving.
+Print Assumptions every_trace_reader_sees_complete.
+Print Assumptions observed_block_stays_complete.
+Print Assumptions readers_do_not_change_the_state.
+Print Assumptions a_trace_with_readers.
 Print Assumptions finalized_observations_monotone.
 Print Assumptions finalized_monotone.
 Print Assumptions finalized_moves_in_example.
